@@ -11,16 +11,17 @@ from .common import func_params, value_returns, last_return, XLERR, XLT, raise_c
 
 PROPERTY = 'C18'
 EXPLANATION = (
-    'Decided from source: (C18.1) the serial<->date pair: decision tables of the leap-day offsets at the critical serials '
-    '(1, 58, 59, 61, 62) and day counts (0, 57, 58, 59, 60) - day index = serial-1 up to 59 and serial-2 from 61, and the inverse '
-    'agrees so that composing the two is the identity on real dates; the time-of-day term is a linear form with coefficient 86400 '
-    '(serial->seconds) and 1/86400 (seconds->serial); (C18.2) lower-bound comparisons with the epoch accept the epoch itself '
-    '(serial 1), the YEAR range guard accepts 1900..9999 and rejects 1899 and 10000 (critical points); (C18.3) the WEEKDAY '
-    'return-type chain: for every supported type the tuple is the rotation mapping the named first day to 1 (type 3: Monday -> 0), '
-    'unknown types give #NUM!; (C18.4) YEAR, MONTH, DAY, WEEKDAY, ISOWEEKNUM, EDATE, EOMONTH, DATEDIF truncate the serial with int() '
-    'before converting it; (C18.5) YEARFRAC basis dispatch: 2 -> days/360, 3 -> days/365, 0/1/4 -> library conventions, other -> '
-    'error, dates swapped when out of order.'
-    ' (C18.6) DATEDIF "Y", "M", "D" as the evaluator calls it on date pairs one day before / on / after an anniversary across leap years (dateutil.rrule by its documented recurrence).')
+    'Decided from source, mostly by interpreting the date functions as the evaluator calls them (calendar '
+    "arithmetic folded; dateutil's relativedelta and rrule by their documented semantics): (C18.1) the "
+    'serial<->date pair at the critical serials (1, 58, 59, 61, 62) and day counts, the inverse agrees; the '
+    'time-of-day term is linear with coefficient 86400 and 1/86400 (known finding F35); (C18.2) DATE / EDATE / '
+    'EOMONTH / YEAR on epoch and range witnesses: serial 1 = 1900-01-01 is a date, results before it are #NUM!, '
+    'years 1900..9999 are valid, month overflow carries; (C18.3) WEEKDAY for every supported return type on the '
+    'seven days of a known week, unknown types #NUM!; (C18.4) YEAR, MONTH, DAY, WEEKDAY, ISOWEEKNUM, EDATE, EOMONTH '
+    'of a serial with a time of day equal those of the whole serial (F35 makes ISOWEEKNUM / EDATE / EOMONTH raise '
+    'OverflowError), and the calendar fields of witness dates; (C18.5) YEARFRAC basis dispatch: 2 -> days/360, 3 -> '
+    'days/365, 0/1/4 -> library conventions, other -> error, dates swapped when out of order; (C18.6) DATEDIF Y / M '
+    '/ D on date pairs one day before / on / after an anniversary across leap years.')
 NOT_DECIDED = 'the calendar itself (datetime / dateutil / yearfrac), the three million serials'
 TRUSTED = ['datetime.timedelta(days, seconds) and datetime.weekday() (Monday = 0) semantics']
 
